@@ -616,6 +616,9 @@ def robot_check(ctx, pid):
         "user callbacks take no simulated time; HAL notifier / DriverStationSim / ntcore as exercised by the correspondence; "
         "the driver station word only changes while the loop is blocked in wait()" % pid)
     ctx.prove()
+    # the programs the theorems are about, regenerated from the current source (fail-closed translator)
+    from . import robot_translate
+    robot_translate.obligation(ctx, pid.lower())
     n = {"quick": 200, "thorough": 3000}[ctx.tier]
     r = ctx.rng
     cdir = os.path.join(CORPUS, pid)
